@@ -143,10 +143,20 @@ func (e *asEp) judge(c *Ctx, line string) {
 	defer e.mu.Unlock()
 	n := 0
 	deadHolder := false
+	who := ""
 	for _, g := range e.gets {
 		if g.loading {
 			n++
-			deadHolder = deadHolder || e.deadCl[g.client]
+			// dead by the protocol's definition: one of the liveness markers this client ever set is gone (also
+			// read from the server, not only from the harness' own bookkeeping of `death` events)
+			gone := e.deadCl[g.client]
+			e.srv.mu.Lock()
+			for _, id := range e.srv.owner[g.client+1] {
+				gone = gone || e.srv.keys[id] == nil
+			}
+			e.srv.mu.Unlock()
+			deadHolder = deadHolder || gone
+			who += fmt.Sprintf(" client%d(dead=%v)", g.client, gone)
 		}
 		if g.done && g.err == nil && strings.HasPrefix(g.val, rueidisaside.PlaceholderPrefix) {
 			c.Fail("aside:placeholder-returned", line, "Get returned the lock placeholder "+g.val)
@@ -198,8 +208,13 @@ func (e *asEp) judge(c *Ctx, line string) {
 	if parked > 0 && !locked {
 		c.Fail("aside:lost-wakeup", line, fmt.Sprintf("%d Get(s) still wait although the key holds no lock placeholder any more: the holder's result (or the release of the lock) never woke them", parked))
 	}
+	if n > 1 && deadHolder {
+		// the second loader started while the first holder was dead: a later refresh of that holder's marker does
+		// not turn this into a violation
+		e.contested = true
+	}
 	if n > 1 && !e.contested && !deadHolder {
-		c.Fail("aside:two-loaders", line, fmt.Sprintf("%d loaders run at the same time for one key", n))
+		c.Fail("aside:two-loaders", line, fmt.Sprintf("%d loaders run at the same time for one key:%s contested=%v", n, who, e.contested))
 	}
 }
 
